@@ -51,6 +51,10 @@ func main() {
 		verif := fs.String("verif", "/verif", "verif root")
 		instr := fs.String("instr-report", "", "instrumentation report to embed in the evidence")
 		_ = fs.Parse(os.Args[2:])
+		if *evName == "" && (*count != 0 || *from != 0) {
+			// a hand-picked slice of the index space is a debugging run: it must not replace the evidence of a full check
+			*evName = *prop + ".debug"
+		}
 		os.Exit(runDriver(*prop, *tier, *seed, *from, *count, *workers, *verif, *instr, *evName, *merge))
 	case "replay":
 		fs := flag.NewFlagSet("replay", flag.ExitOnError)
